@@ -64,7 +64,7 @@ def edit_engines():
     mam["edits"] = [ed("weight", 1, 2, x=X("1/4"), ox=X("1/2")), ed("implication", 1, s="AlgebraicProduct", os="Minimum"), ed("conjunction", 1, s="AlgebraicProduct", os="Minimum"),
                     ed("aggregation", 1, s="BoundedSum", os="Maximum"), ed("defuzz-res", 1, n=4, on=8), ed("defuzz-cls", 1, s="MeanOfMaximum", os="Centroid"),
                     ed("oterm-p", 1, 1, 2, x=X("3/8"), ox=X("1/4")), ed("iterm-p", 1, 1, 2, x=X("1/8"), ox=X("1/4")), ed("in-enabled", 2), ed("out-enabled", 1), ed("block-enabled", 1),
-                    ed("lock-previous", 1), ed("default", 1, x=X("1/8"), ox=list(NAN))]
+                    ed("lock-previous", 1), ed("default", 1, x=X("1/8"), ox=list(NAN)), ed("in-lock-range", 1), ed("in-lock-range", 2), ed("in-max", 1, x=X("1/2"), ox=X("1"))]
     chained["edits"] = [ed("block-enabled", 1), ed("block-enabled", 2), ed("oterm-p", 1, 2, 2, x=X("5/8"), ox=X("1/2")), ed("aggregation", 1, s="AlgebraicSum", os="Maximum"), ed("out-enabled", 1)]
     sug["edits"] = [ed("oterm-p", 1, 4, 1, x=X("-1"), ox=X("1/2")), ed("oterm-p", 1, 4, 3, x=X("1"), ox=X("1/8")), ed("oterm-p", 1, 1, 1, x=X("1"), ox=X("-1/2")),
                     ed("defuzz-cls", 1, s="WeightedSum", os="WeightedAverage"), ed("aggregation", 1, s="Maximum", os="none"), ed("weight", 1, 3, x=X("1"), ox=X("1/2"))]
@@ -86,6 +86,16 @@ def edit_engines():
                           act=activation(cls, **kw))])
         e["edits"] = edits
         es.append(e)
+    # a value is clipped when it is assigned; locking the range afterwards, or narrowing it, does not touch the stored value, and the
+    # propositions read the stored value: terms that are not flat beyond the bound tell the difference
+    from .edl import var
+    c_in = var("c", 0, 1, [term("edge", "Triangle", "1/2", 1, "3/2"), term("low", "Ramp", 1, 0)])
+    d_in = var("d", 0, 1, [term("mid", "Triangle", 0, "1/2", 1), term("top", "Ramp", "1/2", 1)], lock_range=True)
+    rng_e = engine("range-edits", [c_in, d_in], [out_y()],
+                   [block("rb", [rule(P("c", "edge"), [C("y", "s")]), rule(P("d", "mid"), [C("y", "m")]), rule(AND(P("c", "low"), P("d", "top")), [C("y", "l")], weight="1/2")])])
+    rng_e["edits"] = [ed("in-lock-range", 1), ed("in-lock-range", 2), ed("in-max", 2, x=X("1/2"), ox=X("1")), ed("in-max", 1, x=X("3/4"), ox=X("1"))]
+    rng_e["edit_rows"] = [[Q(1, 4), Q(1, 4)], [Q(5, 4), Q(3, 4)]]
+    es.append(rng_e)
     for e in es:
         e["coarse"] = True
     return es
@@ -189,6 +199,11 @@ def apply_edit(fl, e, d, E):
             e.rule_blocks[a].rules[i].enabled = not e.rule_blocks[a].rules[i].enabled
     elif k == "lock-previous":
         e.output_variables[a].lock_previous = not e.output_variables[a].lock_previous
+    elif k == "in-lock-range":
+        e.input_variables[a].lock_range = not e.input_variables[a].lock_range
+    elif k == "in-max":
+        v = e.input_variables[a]
+        v.maximum = flip(float(v.maximum), x, ox, fnum)
     elif k == "default":
         v = e.output_variables[a]
         v.default_value = flip(float(v.default_value), x, ox, fnum)
@@ -253,7 +268,8 @@ def edit_behaviours(ctx, steps, first_id=100):
     restart / copy / edit` of `steps` actions; returns those with an edit and a process, and their cases"""
     head = "SPECIFICATION Spec\nCONSTANTS MaxSteps = {n}\n  MaxInst = 2\n  Emit = TRUE\n  SkipClear = FALSE\n  EditMode = TRUE\n"
     invs = "INVARIANT HistoryFree\nINVARIANT RestartIsFresh\nINVARIANT CopyIdentical\nPROPERTY Independent\n"
-    ecases = [{"id": first_id + i, "engine": E, "rows": ROWS[:2], "edits": E["edits"]} for i, E in enumerate(edit_engines())]
+    # the second row lies outside the ranges of the input variables (3/2, -1/4)
+    ecases = [{"id": first_id + i, "engine": E, "rows": E.get("edit_rows") or [ROWS[0], [Q(3, 2), Q(-1, 4)]], "edits": E["edits"]} for i, E in enumerate(edit_engines())]
     eruns = ctx.tlc_cases("MC_Lifecycle", write_cfg("MC_Lifecycle_edits", head.format(n=steps) + invs + "INVARIANT EmitInv\nCHECK_DEADLOCK FALSE\n"),
                           ecases, label="life-edits", workers=16, timeout=3400)
     behs = []
